@@ -857,6 +857,15 @@ class Gen:
         lu = getattr(self.s, 'last_unclaimed', None)
         if lu is not None and lu.claimed and lu.store_handle is not None and rng.random() < 0.65:
             # the comment found a new owner: let that owner release it again (ping-pong between neighbours)
+            for ref, owner, m in self.wrappers(True, {'raw_repeated_comments'}):
+                try:
+                    if any(x is lu for x in self.s.resolve(ref)):
+                        st = lu.token_store
+                        idx = next((i for i, t in enumerate(st) if t is lu), None)
+                        if idx is not None:
+                            return {'op': 'claim', 't': ref, 'how': 'unclaim_inter', 'subset': [idx]}
+                except Exception:
+                    pass
             for ref, n in self.nodes():
                 if isinstance(n, I.internal.SurroundingCommentsMixin):
                     for side in ('leading', 'trailing'):
@@ -865,6 +874,20 @@ class Gen:
                                 return {'op': 'claim', 't': ref, 'how': f'unclaim_{side}', 'ignore': False}
                         except Exception:
                             pass
+        if lu is not None and not lu.claimed and lu.store_handle is not None and rng.random() < 0.3:
+            # ... or let one of the lists whose model spans the comment claim exactly it
+            st = lu.token_store
+            ws = []
+            for ref, owner, m in self.wrappers(True, {'raw_repeated_comments'}):
+                try:
+                    if owner.token_store is st and any(t is lu for t in owner.tokens):
+                        ws.append(ref)
+                except Exception:
+                    pass
+            if ws and st is not None:
+                idx = next((i for i, t in enumerate(st) if t is lu), None)
+                if idx is not None:
+                    return {'op': 'claim', 't': rng.choice(ws), 'how': rng.choice(['claim_inter', 'claim_inter', 'reclaim_inter']), 'subset': [idx]}
         if lu is not None and not lu.claimed and lu.store_handle is not None and rng.random() < 0.7:
             # hand the comment that was just released to a neighbour that can reach it (claim ping-pong)
             from .docexec import _claimable_layout
